@@ -194,10 +194,13 @@ enum PolicyStateKind<C> {
     },
     // mpc computation is executing in a separate tokio task
     Executing {
-        // use Notify because we notify in both directions, first from the `cancel` method
-        // to the tokio task to signal cancellation, and then the other direction if the
-        // cancel error has been sent to the output URL
+        // `cancel` is notified by the `cancel` method to ask the tokio task to stop; the task
+        // notifies `finished` once it has ended, either after sending the cancel error to the
+        // output URL or after completing normally. Two separate `Notify`s are needed: with a
+        // single one, `cancel()` could consume its own stored permit if it ran before the task
+        // was polled for the first time and return without anything having been cancelled.
         cancel: Arc<Notify>,
+        finished: Arc<Notify>,
     },
 }
 
@@ -785,8 +788,10 @@ where
                 let tmp_dir = self.tmp_dir_path.clone();
                 let cmd_tx = self.cmd_tx.clone();
                 let cancel = Arc::new(Notify::new());
+                let finished = Arc::new(Notify::new());
                 self.state_kind = PolicyStateKind::Executing {
                     cancel: Arc::clone(&cancel),
+                    finished: Arc::clone(&finished),
                 };
                 let fut = async move {
                     let mpc_fut = async {
@@ -839,9 +844,11 @@ where
                             if let Err(err) = send_cancel(channel.client, policy).await {
                                 error!(%err, "unable to send cancelled error to output destination")
                             }
-                            cancel.notify_one();
                         }
-                    )
+                    );
+                    // wakes a waiting `cancel()`; if none is waiting the permit is stored, so a
+                    // later `cancel()` returns at once (the result has already been delivered)
+                    finished.notify_one();
                 };
 
                 tokio::spawn(fut.instrument(span));
@@ -1079,12 +1086,12 @@ where
                 channel: Channel { client, .. },
                 ..
             } => (client, policy),
-            PolicyStateKind::Executing { cancel } => {
+            PolicyStateKind::Executing { cancel, finished } => {
                 // send_cancel is called in spawned mpc tokio task
                 cancel.notify_one();
                 // when this is notified, the error has been sent to output
-                // destination if available
-                cancel.notified().await;
+                // destination if available (or the computation had completed)
+                finished.notified().await;
                 let _ = ret.send(Ok(()));
                 return;
             }
